@@ -1,5 +1,12 @@
-(* C02 -- expressions: precedence, promotion, result types (statements grow with Proofs/Prec.v, Proofs/Types.v). *)
-From BL Require Import Base.Prelude Base.Floats Mach.Val Mach.Ops Lang.Token Lang.Parse.
+(* C02 -- expressions: precedence, promotion, result types, typed assignment.
+   Proved: the precedence tables are the manual's 13 levels; result types of every operator (the wider operand type for
+   + - *, Single at least for /, Integer for \ MOD and the logical operators, 0 / -1 for the relational ones); the only
+   error of + - * is OVERFLOW between two Integers; conversion on assignment fails only with OVERFLOW, TYPE MISMATCH or
+   STRING TOO LONG and otherwise yields a value of the target type (C06_store_typed: nothing else is ever stored);
+   compiled expression code computes what the reference semantics prescribes (C01_compiled_expression_correct).
+   NOT proved: that the parser builds the tree the precedence table prescribes (differential against a reference
+   precedence-climbing parser in the C02 monitor), numeric literal typing, the numeric functions. *)
+From BL Require Import Base.Prelude Base.Floats Mach.Val Mach.Ops Mach.Var Lang.Token Lang.Parse Proofs.Promote.
 Local Open Scope N_scope.
 
 (* the parser's two tables are the manual's 13 levels *)
@@ -28,3 +35,44 @@ Proof.
     try discriminate; injection H as <-; apply Hb.
 Qed.
 Print Assumptions C02_relational_bool.
+
+Theorem C02_sum_type : forall l r v tl tr, op_sum l r = Ok v -> val_type l = Some tl -> val_type r = Some tr ->
+  numeric l = true -> numeric r = true -> val_type v = Some (wider tl tr).
+Proof. exact sum_type. Qed.
+Print Assumptions C02_sum_type.
+
+Theorem C02_subtract_type : forall l r v tl tr, op_subtract l r = Ok v -> val_type l = Some tl -> val_type r = Some tr ->
+  numeric l = true -> numeric r = true -> val_type v = Some (wider tl tr).
+Proof. exact subtract_type. Qed.
+Print Assumptions C02_subtract_type.
+
+Theorem C02_multiply_type : forall l r v tl tr, op_multiply l r = Ok v -> val_type l = Some tl -> val_type r = Some tr ->
+  numeric l = true -> numeric r = true -> val_type v = Some (wider tl tr).
+Proof. exact multiply_type. Qed.
+Print Assumptions C02_multiply_type.
+
+Theorem C02_arith_error : forall fi f32 f64 l r e, numeric l = true -> numeric r = true ->
+  arith fi f32 f64 l r = Err e -> ecode e = E_Overflow /\ val_type l = Some TInt /\ val_type r = Some TInt.
+Proof. exact arith_error. Qed.
+Print Assumptions C02_arith_error.
+
+Theorem C02_divide_type : forall l r v tl tr, op_divide l r = Ok v -> val_type l = Some tl -> val_type r = Some tr ->
+  val_type v = Some (wider TSng (wider tl tr)).
+Proof. exact divide_type. Qed.
+Print Assumptions C02_divide_type.
+
+Theorem C02_integer_ops_type : forall l r v,
+  (op_divint l r = Ok v \/ op_remainder l r = Ok v \/ op_and l r = Ok v \/ op_or l r = Ok v \/ op_xor l r = Ok v
+   \/ op_imp l r = Ok v \/ op_eqv l r = Ok v) ->
+  val_type v = Some TInt /\ (exists a b, to_i16 l = Ok a /\ to_i16 r = Ok b).
+Proof. exact integer_ops_type. Qed.
+Print Assumptions C02_integer_ops_type.
+
+Theorem C02_not_type : forall x v, op_not x = Ok v -> val_type v = Some TInt.
+Proof. exact not_type. Qed.
+Print Assumptions C02_not_type.
+
+Theorem C02_convert_errors : forall t v e, convert_to t v = Err e ->
+  ecode e = E_Overflow \/ ecode e = E_TypeMismatch \/ ecode e = E_StringTooLong.
+Proof. exact convert_errors. Qed.
+Print Assumptions C02_convert_errors.
